@@ -270,6 +270,14 @@ def shard(ctx, payload):
 
     for i in range(ncodes):
         s = code()
+        if i % 6 == 0 and codes.PAT_EVENT_CODE.match(s + '\n'):
+            s = s + '\n'          # `$` admits one trailing newline (a line read from a file): still a valid code
+            ctx.label('code-with-trailing-newline')
+        elif i % 9 == 1:
+            t = codegen.lookalikes(s, rng.randrange)
+            if codes.PAT_EVENT_CODE.match(t):      # `\d` admits every Unicode decimal digit: those spellings are codes too
+                s = t
+                ctx.label('code-with-non-ascii-digits')
         ctx.count()
         ctx.violations(examine_code(s))
         ctx.label('code-' + shape_tag(s).split('-')[0])
